@@ -295,14 +295,14 @@ pub fn verdict_is_backed(prob: &Prob, eff: &Effective, st: &DefaultSettings<f64>
             // a certificate whose b'z is at rounding level relative to |b||z| certifies nothing
             bz < 0.0
                 && bz.abs() >= 1e-6 * norm2(&bk) * norm2(&zk)
-                && norm2(&atz) <= 1e-4 * bz.abs() * 1.0f64.max(norm2(&zk))
+                && norm2(&atz) <= 1e-3 * bz.abs()
         }
         SolverStatus::DualInfeasible => {
             let qx = dot_t(&prob.q, &s.x).v;
             let (px, _) = symmul(&prob.p_triu, &s.x);
             let (ax, _) = mul(&prob.a, &s.x);
             let axs: Vec<f64> = (0..prob.m).map(|i| if eff.keep[i] { ax[i] + s.s[i] } else { 0.0 }).collect();
-            let lim = 1e-4 * qx.abs() * 1.0f64.max(norm2(&s.x));
+            let lim = 1e-3 * qx.abs();
             qx < 0.0
                 && qx.abs() >= 1e-6 * norm2(&prob.q) * norm2(&s.x)
                 && norm2(&px) <= lim
